@@ -313,6 +313,14 @@ pub fn inputs(quick: bool) -> Vec<String> {
             }
         }
     }
+    // a term compared with itself: the relation alone decides nothing when the term is partial or multi-valued
+    for r in RELS {
+        for a in &t1 {
+            if !t0.contains(a) {
+                rules.push(inst2("r :- {0} {R} {1}, q(X), q(Y).", a, r, a));
+            }
+        }
+    }
     // adversarial variable names
     for tpl in adversarial_templates() {
         for x in ADVERSARIAL {
